@@ -593,6 +593,14 @@ func (s *Server) checkParams(id string, p *spb.SessionParameters, gotMsg bool) (
 		})
 	}
 
+	// Anything else - including enumeration values that this server does not know -
+	// is not a combination that is supported.
+	if p.Redundancy != spb.SessionParameters_SINGLE_PRIMARY || p.Persistence != spb.SessionParameters_PRESERVE {
+		return nil, addModifyErrDetailsOrReturn(status.Newf(codes.Unimplemented, "unsupported redundancy %s or persistence %s", p.Redundancy, p.Persistence), &spb.ModifyRPCErrorDetails{
+			Reason: spb.ModifyRPCErrorDetails_UNSUPPORTED_PARAMS,
+		})
+	}
+
 	cp := &clientParams{
 		FIBAck:       p.GetAckType() == spb.SessionParameters_RIB_AND_FIB_ACK,
 		ExpectElecID: p.GetRedundancy() == spb.SessionParameters_SINGLE_PRIMARY,
